@@ -201,6 +201,7 @@ def run_holders_tie(ctx, tied):
                              {"kind": "selfref-disagreement"})
         L.unload_module(mod_self)
     del meta
+    run_generic_self(ctx)
 
 
 # ---------------------------------------------------------------------------
@@ -262,3 +263,66 @@ def run_flags_tie(ctx, tied):
         ctx.correspondence(name, len(cases), len(bad), "; ".join(descr[k][:300] for k in bad[:4]))
         if bad:
             ctx.not_shown("correspondence " + name, "; ".join(descr[k][:300] + " | " + cases[k][:400] for k in bad[:3]))
+
+
+# ---------------------------------------------------------------------------
+# a specialised generic dataclass with a Self field (the codec path keys the holder of `Self` by builder.cls - the
+# APRegistry AKBuilderCls part of K115a.attrs_plan; repaired by 108dd9a): fixed scenario, oracle only
+# ---------------------------------------------------------------------------
+
+GENERIC_SELF_SRC = """from dataclasses import dataclass
+from typing import Generic, List, Optional, TypeVar
+from typing import Self
+from mashumaro import DataClassDictMixin
+T = TypeVar("T")
+
+
+@dataclass
+class Box(DataClassDictMixin, Generic[T]):
+    v: T
+    nxt: Optional[Self] = None
+
+
+@dataclass
+class IntBox(Box[int]):
+    pass
+"""
+
+
+def generic_self_results(mod):
+    from mashumaro.codecs.basic import BasicDecoder, BasicEncoder
+
+    def raw(fn):
+        try:
+            return ("ok", repr(fn()))
+        except RecursionError:
+            raise
+        except Exception as e:      # noqa: BLE001
+            return ("err", type(e).__name__)
+    Box, IntBox = mod.Box, mod.IntBox
+    x = IntBox(1, IntBox(2))
+    y = Box(1, Box(2))
+    a = [raw(lambda: x.to_dict()), raw(lambda: y.to_dict())]
+    b = [raw(lambda: BasicEncoder(IntBox).encode(x)), raw(lambda: BasicEncoder(Box[int]).encode(y))]
+    wire = {"v": "1", "nxt": {"v": 2}}
+    da = [raw(lambda: IntBox.from_dict(wire)), raw(lambda: Box.from_dict({"v": 1, "nxt": {"v": 2}}))]
+    db = [raw(lambda: BasicDecoder(IntBox).decode(wire)), raw(lambda: BasicDecoder(Box[int]).decode({"v": 1, "nxt": {"v": 2}}))]
+    return a, b, da, db
+
+
+def run_generic_self(ctx):
+    try:
+        mod = L.load_module(GENERIC_SELF_SRC, "fx_generic_self")
+    except Exception as e:      # noqa: BLE001
+        ctx.not_shown("generic Self scenario does not load", repr(e)[:300])
+        return
+    try:
+        a, b, da, db = generic_self_results(mod)
+        ctx.count(("generic-self",), n=8)
+        if a != b or da != db or any(r[0] != "ok" for r in a + da):
+            ctx.fail(f"specialised generic dataclass with a Self field: mixin {a} {da} but codec {b} {db}",
+                     {"entry": "generic-self", "source": GENERIC_SELF_SRC, "observed_mixin": str(a + da)[:300],
+                      "observed_codec": str(b + db)[:300], "expected": "identical results"},
+                     {"kind": "generic-self-codec"})
+    finally:
+        L.unload_module(mod)
